@@ -65,6 +65,11 @@ NEUTRAL_DECLINED.update({
     'C14-n6-2': {'C05': 'walker split into a recursive generator and a '
                         'first-match loop'},
 })
+NEUTRAL_DECLINED.update({
+    'C13-n7-1': {'C13': 'undefined-reference walker split into a recursive '
+                        'generator and any()'},
+    'C14-n7-1': {'C05': 'walker recursion moved into a nested closure'},
+})
 NEUTRAL_DECLINED['C16-n4-2'] = {
     'C16': 'payload encoders looked up in a module table'}
 # known false alarms (exit 1) that are documented and not repaired: none
